@@ -247,17 +247,18 @@ def C14(tier, seed):
 
     n = 3 if tier == "quick" else 4
     variants = [("", {}), (":per_axis_pos", dict(multi_pos=True)), (":3D", dict(shape=(3, 1, 1, 1))),
-                (":scale_given", dict(scale="given"))]
+                (":scale_given", dict(scale="given")), (":descending_node_order", dict(node_order="reversed"))]
     runs = []
     for route, h in (("geff", roundtrip.geff_harness), ("csv", roundtrip.csv_harness)):
         for name, extra in variants:
             if route == "csv" and name == ":scale_given":
                 continue
-            cfg = dict(N=n, op=route, select=False)
+            m = n if (name == "" and route == "csv") else 3  # (GEFF carries lineage ids too: 4 slots take > 1 h)
+            cfg = dict(N=m, op=route, select=False)
             cfg.update(extra)
-            runs.append(Run(f"roundtrip:{route}{name}:N={n}", h, cfg, roundtrip.replay, ("roundtrip",),
-                            f"every valid solution on <= {n} node slots (forest shape, times, track and lineage ids "
-                            f"symbolic; ids 1..{n + 1}), coordinates arbitrary reals; full export, then import with the "
+            runs.append(Run(f"roundtrip:{route}{name}:N={m}", h, cfg, roundtrip.replay, ("roundtrip",),
+                            f"every valid solution on <= {m} node slots (forest shape, times, track and lineage ids "
+                            f"symbolic; ids 1..{m + 1}), coordinates arbitrary reals; full export, then import with the "
                             f"key mapping that corresponds to what the exporter wrote"))
     return run_property("C14", tier, runs, explanation=R.EXPL, seed=seed, assumptions=EXPORT_ASSUME + [
         "IDEAL STORE between the two halves: geff.write followed by read_to_memory returns the node ids, edges and one "
